@@ -64,20 +64,114 @@ def slice_builder_unwind(chk, prog):
     chk.inst("slice-builder:no-drop-on-completion", WSW, not norm_drop,
              detail="the builder is dropped on a normal path of write_slice_with: a completed allocation would be "
                     "destructed and released while a Gc to it is returned")
-    # Drop: prefix length depends on init_length only; destruct before release
-    d = prog.bodies[prog.seed_n[SB_DROP][0]]
-    from_thin = [bb["t"] for bb in d["blocks"] if bb["t"] and bb["t"]["k"] == "call" and not bb["t"]["f"].get("indirect")
-                 and norm(bb["t"]["f"]["def"]) == "slice::SliceWithHeader::ptr_from_thin"]
-    ok = len(from_thin) == 1 and _depends_only_on_field(d, from_thin[0]["args"][1], il)
-    chk.inst("slice-builder:drop-prefix-is-init_length", SB_DROP, ok,
-             detail="the number of elements destructed by the builder's Drop is not taken from init_length")
-    calls = [(i, norm(bb["t"]["f"]["def"])) for i, bb in enumerate(d["blocks"]) if bb["t"] and bb["t"]["k"] == "call"
-             and not bb["t"]["f"].get("indirect")]
-    dip = [i for i, n in calls if n == "core::ptr::drop_in_place"]
-    md = [i for i, n in calls if n in ("core::mem::manually_drop::ManuallyDrop::drop",)]
-    ok = len(dip) == 1 and len(md) == 1 and dip[0] in cfg.dominators(d, unwind=False)[md[0]]
-    chk.inst("slice-builder:destruct-then-release", SB_DROP, ok,
-             detail="the builder's Drop does not destruct the initialised part before releasing the block")
+    slice_builder_drop(chk, prog)
+
+
+def slice_builder_drop(chk, prog):
+    """Drop for the slice builder, interpreted on terms: whatever helpers it goes through, it destructs the value
+    `header + first init_length elements` exactly once and releases the block afterwards. The prefix length may be
+    clamped to the allocated length (they cannot differ: init_length counts elements written into the slice);
+    orderings that contradict init_length <= allocated length are not states of a builder."""
+    from gcv import interp
+    from gcv.interp import Interp, State, UNIT, adt, ref
+    a = prog.all_adts.get(SB)
+    names = [f["name"] for f in a["variants"][0]["fields"]]
+    if not chk.anchor(SB + ".init_length", "init_length" in names):
+        return
+    INIT, ALLOC = ("sym", "init_length"), ("sym", "allocated_len")
+
+    def ev(name, ret=UNIT):
+        def h(ip, st, args, info):
+            st.event(name, args[0] if args else None)
+            return [(st, "ret", ret)]
+        return h
+
+    def term(name):
+        def h(ip, st, args, info):
+            return [(st, "ret", ("app", name, tuple(args)))]
+        return h
+
+    def const(v):
+        return lambda ip, st, args, info: [(st, "ret", v)]
+    prims = {
+        "gc::GcBuilder::as_ptr": const(("sym", "whole")),
+        "slice::GcSliceWithHeaderSliceBuilder::slice_ptr": const(("sym", "slice_ptr")),
+        "slice::SliceWithHeader::ptr_to_thin": term("thin"),
+        "slice::SliceWithHeader::ptr_from_thin": term("fat"),
+        "core::ptr::drop_in_place": ev("destruct"),
+        "core::ptr::mut_ptr::<impl *mut T>::drop_in_place": ev("destruct"),
+        "core::mem::manually_drop::ManuallyDrop::drop": ev("release"),
+        "<gc::GcBuilder as core::ops::drop::Drop>::drop": ev("release"),
+        "core::ptr::mut_ptr::<impl *mut [T]>::len": const(ALLOC),
+        "core::ptr::const_ptr::<impl *const [T]>::len": const(ALLOC),
+        "core::ptr::non_null::NonNull::<[T]>::len": const(ALLOC),
+        "core::slice::<impl [T]>::len": const(ALLOC),
+        "core::ptr::metadata::metadata": const(ALLOC),
+    }
+    ip = Interp(prog, prims=prims, strict=True)
+    ip.lenient_std = True
+    st = State()
+    st.mem[("b",)] = adt(SB, 0, tuple(INIT if n == "init_length" else ("sym", n) for n in names))
+    try:
+        outs = ip.run(prog.seed_n[SB_DROP][0], [ref(("b",), ())], st)
+    except (interp.Unmodelled, interp.InterpError) as e:
+        chk.inst("slice-builder:drop-prefix-is-init_length", SB_DROP, False, detail="could not be analysed: %s" % e)
+        return
+    probs_len, probs_order = [], []
+    n = 0
+    for o in outs:
+        rel = None
+        for (x, y), r in o.st.cons.items():
+            if (x, y) == (INIT, ALLOC):
+                rel = r
+            elif (x, y) == (ALLOC, INIT):
+                rel = frozenset("".join(r).translate(str.maketrans("<>", "><")))
+        if rel is not None and rel <= frozenset(">"):
+            continue            # init_length > allocated length: not a builder state
+        n += 1
+        if o.kind != "return":
+            probs_order.append("the builder's Drop can panic (%s)" % [e for e in o.ev if e[0] == "panic"][:1])
+            continue
+        d = [i for i, e in enumerate(o.ev) if e[0] == "destruct"]
+        rl = [i for i, e in enumerate(o.ev) if e[0] == "release"]
+        if len(d) != 1 or len(rl) != 1 or d[0] > rl[0]:
+            probs_order.append("the builder's Drop does not destruct the initialised part (once) before releasing the block "
+                               "(%d destruct, %d release event(s))" % (len(d), len(rl)))
+        for i in d:
+            lens = _fat_lengths(o.ev[i][1])
+            good = {INIT, ("app", "min", (INIT, ALLOC)), ("app", "min", (ALLOC, INIT))}
+            if rel is not None and rel <= frozenset("<="):
+                good.add(INIT)
+            if rel is not None and rel <= frozenset("="):
+                good.add(ALLOC)
+            if not lens or not all(l in good for l in lens):
+                probs_len.append("the number of elements destructed by the builder's Drop is not init_length (it is %s)" % (
+                    [_fmt(l) for l in lens] or "not a prefix of the allocated value"))
+    if n == 0:
+        probs_order.append("no outcome explored")
+    chk.inst("slice-builder:drop-prefix-is-init_length", SB_DROP, not probs_len, detail="; ".join(sorted(set(probs_len))[:2]))
+    chk.inst("slice-builder:destruct-then-release", SB_DROP, not probs_order, detail="; ".join(sorted(set(probs_order))[:2]))
+
+
+def _fat_lengths(v, out=None):
+    out = out if out is not None else []
+    if isinstance(v, tuple):
+        if len(v) == 3 and v[0] == "app" and v[1] == "fat" and len(v[2]) == 2:
+            out.append(v[2][1])
+        else:
+            for x in v:
+                _fat_lengths(x, out)
+    return out
+
+
+def _fmt(t):
+    if isinstance(t, tuple) and t and t[0] == "sym":
+        return t[1]
+    if isinstance(t, tuple) and t and t[0] == "app":
+        return "%s(%s)" % (t[1], ", ".join(_fmt(x) for x in t[2]))
+    if isinstance(t, tuple) and t and t[0] in ("i", "f"):
+        return str(t[1])
+    return str(t)
 
 
 def _defs_of(body, local):
